@@ -35,6 +35,22 @@ pub fn ops_of(doc: &[Node], full: &dyn Fn(&[usize]) -> bool, deprecated_unknown:
     for (i, n) in doc.iter().enumerate() { let mut p = vec![i]; walk(n, &mut p, full, deprecated_unknown, &mut ops); }
     ops
 }
+/// the same Full item with (some of) its child masters given as Start ... End runs of children instead of nested Full items
+fn with_runs(tag: &DynTag, rng: &mut Rng) -> DynTag {
+    fn kids_of(kids: &[DynTag], rng: &mut Rng, out: &mut Vec<DynTag>) {
+        for k in kids {
+            match &k.v {
+                DynVal::M(Master::Full(c)) if rng.chance(2, 3) => { out.push(start(k.id)); kids_of(c, rng, out); out.push(end(k.id)); }
+                DynVal::M(Master::Full(c)) => { let mut v = Vec::new(); kids_of(c, rng, &mut v); out.push(DynTag { id: k.id, v: DynVal::M(Master::Full(v)) }); }
+                _ => out.push(k.clone()),
+            }
+        }
+    }
+    match &tag.v { DynVal::M(Master::Full(c)) => { let mut v = Vec::new(); kids_of(c, rng, &mut v); DynTag { id: tag.id, v: DynVal::M(Master::Full(v)) } } _ => tag.clone() }
+}
+fn runs_ops(ops: &[WOp], rng: &mut Rng) -> Vec<WOp> {
+    ops.iter().map(|o| match o { WOp::Tag { tag, width, unknown } => WOp::Tag { tag: with_runs(tag, rng), width: *width, unknown: *unknown }, x => x.clone() }).collect()
+}
 /// inside a Full item neither unknown size nor explicit widths can be expressed: normalise a subtree
 fn plain(n: &mut Node) { n.unk = false; n.width = 0; for k in n.kids.iter_mut() { plain(k); } }
 
@@ -172,6 +188,7 @@ pub fn present(out: &mut Out, rng: &mut Rng, count: usize) {
             let f = move |p: &[usize]| chosen.iter().any(|c| c.as_slice() == p);
             let mut ops = ops_of(&doc, &f, false); ops.push(if rng.chance(1, 2) { WOp::Flush } else { WOp::IntoInner });
             run_writer(out, &format!("full:{sub:b}"), &ops, rand_sink(rng));
+            if rng.chance(1, 2) { let r = runs_ops(&ops, rng); run_writer(out, &format!("runs:{sub:b}"), &r, rand_sink(rng)); }
         }
         out.ev(json!({"ev":"end"}));
         // (b) deprecated unknown-size call = option-based one
@@ -205,12 +222,59 @@ pub fn present(out: &mut Out, rng: &mut Rng, count: usize) {
     }
 }
 
+/// C09: explicit size widths at the edge of what they can hold (payloads of 2^(7w)-2 .. 2^(7w) bytes): the width is honoured
+/// exactly or the call is rejected - never silently widened
+pub fn widths(out: &mut Out, rng: &mut Rng, count: usize) {
+    let mut n = 0usize;
+    for i in 0..count {
+        let s = pick_schema(rng, i);
+        let cands: Vec<&dynspec::Entry> = s.entries.iter().filter(|e| matches!(e.ty, TagDataType::Binary | TagDataType::Utf8)
+            && e.path.iter().all(|p| matches!(p, ebml_iterable::specs::PathPart::Id(_)))).collect();
+        if cands.is_empty() { continue; }
+        let e = *rng.pick(&cands);
+        let chain: Vec<u64> = e.path.iter().map(|p| match p { ebml_iterable::specs::PathPart::Id(id) => *id, _ => 0 }).collect();
+        let (len, w) = *rng.pick(&[(126usize, 1usize), (127, 1), (128, 1), (127, 2), (5, 1), (16382, 2), (16383, 2), (16384, 2), (16383, 3), (127, 8), (0, 1)]);
+        let mk = |rng: &mut Rng| if e.ty == TagDataType::Binary { DynTag { id: e.id, v: DynVal::B(rng.bytes(len)) } } else { DynTag { id: e.id, v: DynVal::S("w".repeat(len)) } };
+        let leaf = mk(rng);
+        let build = |width: usize| -> Vec<WOp> {
+            let mut ops: Vec<WOp> = chain.iter().map(|id| t(start(*id))).collect();
+            ops.push(WOp::Tag { tag: leaf.clone(), width, unknown: false });
+            for id in chain.iter().rev() { ops.push(t(end(*id))); }
+            ops.push(WOp::Flush); ops
+        };
+        begin(out, &mut n, &s, "width_exact", json!({}));
+        let (dest, _) = run_writer(out, "plain", &build(0), vec![]);
+        readback(out, "plain", &dest, false);
+        let mut ws: Vec<i64> = chain.iter().map(|_| 0).collect(); ws.push(w as i64);
+        out.ev(json!({"ev":"note","widths": ws}));
+        let (dest, _) = run_writer(out, "opt", &build(w), rand_sink(rng));
+        readback(out, "opt", &dest, false);
+        out.ev(json!({"ev":"end"}));
+    }
+}
+
 /// failing calls of every kind, to be inserted into valid call sequences (C19)
 fn failing_call(rng: &mut Rng, s: &Schema, chain: &[u64]) -> Option<WOp> {
     let leaves: Vec<&dynspec::Entry> = s.entries.iter().filter(|e| e.ty != TagDataType::Master).collect();
     let masters: Vec<&dynspec::Entry> = s.entries.iter().filter(|e| e.ty == TagDataType::Master).collect();
     let mk = |rng: &mut Rng, e: &dynspec::Entry| -> DynTag { gen::to_tag(&Node::leaf(e.id, gen::rand_val(rng, e.ty, false, false).0)) };
-    match rng.below(10) {
+    match rng.below(13) {
+        10 | 11 | 12 => { // Full master whose children end the master itself (and what was open before), or leave a child open
+            let ok: Vec<&&dynspec::Entry> = masters.iter().filter(|e| gen::matches(&e.path, chain)).collect();
+            if ok.is_empty() { return None; }
+            let m = **rng.pick(&ok);
+            let mut ch = chain.to_vec(); ch.push(m.id);
+            let good: Vec<&dynspec::Entry> = gen::allowed_children(s, &ch).into_iter().filter(|e| e.ty != TagDataType::Master).collect();
+            let inner: Vec<&dynspec::Entry> = gen::allowed_children(s, &ch).into_iter().filter(|e| e.ty == TagDataType::Master).collect();
+            let mut kids: Vec<DynTag> = Vec::new();
+            for _ in 0..rng.below(3) { if !good.is_empty() { let e = *rng.pick(&good); kids.push(mk(rng, e)); } }
+            match rng.below(3) {
+                0 => { kids.push(end(m.id)); }
+                1 => { kids.push(end(m.id)); for id in chain.iter().rev() { kids.push(end(*id)); } }
+                _ => { if inner.is_empty() { kids.push(end(m.id)); if !good.is_empty() { let e = *rng.pick(&good); kids.push(mk(rng, e)); } } else { let c = *rng.pick(&inner); kids.push(start(c.id)); } }
+            }
+            Some(t(DynTag { id: m.id, v: DynVal::M(Master::Full(kids)) }))
+        }
         8 | 9 => { // Full master, valid children, but their total size is not representable in the requested width
             let ok: Vec<&&dynspec::Entry> = masters.iter().filter(|e| gen::matches(&e.path, chain)).collect();
             if ok.is_empty() { return None; }
@@ -292,7 +356,7 @@ pub fn calls(out: &mut Out, rng: &mut Rng, count: usize) {
         if i % 2 == 0 { let flat = gen::flat_index(&doc); let want: Vec<bool> = (0..flat.len()).map(|_| rng.chance(1, 2)).collect(); gen::assign_unknown(&mut doc, &s, &want); }
         let fullset: Vec<bool> = (0..64).map(|_| rng.chance(1, 4)).collect();
         let pick_full = move |p: &[usize]| fullset[(p.iter().sum::<usize>() + p.len() * 7) % 64];
-        let valid = ops_of(&doc, &pick_full, false);
+        let valid = { let v = ops_of(&doc, &pick_full, false); if i % 3 == 1 { runs_ops(&v, rng) } else { v } };
         // chain of open masters before each op of the valid sequence
         let mut chains: Vec<Vec<u64>> = Vec::new(); let mut ch: Vec<u64> = Vec::new();
         for op in &valid {
@@ -385,6 +449,7 @@ pub fn run(out: &mut Out, which: &str, seed: u64, thorough: bool) {
         "rt_small" => rt(out, &mut rng, 400 * k, false, false),
         "present" => present(out, &mut rng, 150 * k),
         "calls" => calls(out, &mut rng, 400 * k),
+        "widths" => widths(out, &mut rng, 60 * k),
         "fix" => fix(out, &mut rng, 500 * k),
         x => panic!("unknown writer driver {x}"),
     }
